@@ -36,6 +36,9 @@
 //	             stays silent ("pre") or completes TLS and then stays silent ("posttls")
 //	i-pending    peers that completed the transport level handshake wait to be accepted
 //	j-handler    ws / wss listener whose handler is mounted on the application's HTTP server
+//	             (idle / recv: a mangos peer connected after Listen; upgraded-then-listen /
+//	             upgraded-no-listen: raw peers were upgraded by the application's server before
+//	             Listen() was called, resp. Listen() is never called)
 //	k-txblock    the pipe's sender is blocked inside the transport write: a raw peer completed
 //	             the handshake / upgrade, reads nothing and stays connected; messages are sent
 //	             until the kernel buffers are full (inproc: a peer socket that does not Recv
@@ -240,7 +243,7 @@ var situations = []*situation{
 	// completed the transport level handshake and waits to be accepted
 	// the WebSocket listener's handler is mounted on the application's own HTTP server
 	// (GetOption(OptionWebSocketHandler)): the listener runs no server of its own
-	{id: "j-handler", scenario: "close-handler-mode", roles: []string{"L"}, variants: func(*tran) []string { return []string{"idle", "recv"} },
+	{id: "j-handler", scenario: "close-handler-mode", roles: []string{"L"}, variants: func(*tran) []string { return []string{"idle", "recv", "upgraded-then-listen", "upgraded-no-listen"} },
 		applies: func(t *tran, _ *kind) bool { return t.http }},
 	// the pipe's sender is blocked INSIDE THE TRANSPORT WRITE: the peer is a raw endpoint of the
 	// harness that completed the handshake (TLS, SP header / WebSocket upgrade) and then reads
